@@ -10,8 +10,10 @@ import (
 	"fmt"
 	"go/ast"
 	"go/parser"
+	"go/scanner"
 	"go/token"
 	"go/types"
+	"hash/fnv"
 	"os"
 	"path/filepath"
 	"sort"
@@ -25,6 +27,7 @@ type Report struct {
 	Inlined []string          `json:"inlined_helpers,omitempty"` // pkg.Func, removed after inlining
 	Kept    map[string]string `json:"helpers_left_alone,omitempty"`
 	Aliases map[string]string `json:"renamed_functions,omitempty"` // baseline key -> current key
+	Renamed []string          `json:"names_restored,omitempty"`    // "current -> reference" renames undone in the overlay
 	Rounds  int               `json:"rounds,omitempty"`
 	Note    string            `json:"note,omitempty"`
 }
@@ -89,10 +92,50 @@ func sigText(src []byte, fset *token.FileSet, fd *ast.FuncDecl) string {
 	return b.String()
 }
 
+// abstractText renders Go source text with every identifier that is not predeclared replaced by "_": two pieces
+// of code that differ only by renames have the same abstract text.
+func abstractText(src []byte) string {
+	var sc scanner.Scanner
+	fs := token.NewFileSet()
+	f := fs.AddFile("", fs.Base(), len(src))
+	sc.Init(f, src, nil, 0)
+	var b strings.Builder
+	for {
+		_, tok, lit := sc.Scan()
+		if tok == token.EOF {
+			break
+		}
+		switch {
+		case tok == token.IDENT:
+			if types.Universe.Lookup(lit) != nil {
+				b.WriteString(lit)
+			} else {
+				b.WriteString("_")
+			}
+		case tok == token.SEMICOLON && lit == "\n":
+			b.WriteString(";")
+		case tok.IsLiteral():
+			b.WriteString(lit)
+		default:
+			b.WriteString(tok.String())
+		}
+		b.WriteString(" ")
+	}
+	return b.String()
+}
+
+func hashText(t string) string {
+	h := fnv.New64a()
+	h.Write([]byte(t))
+	return fmt.Sprintf("%x", h.Sum64())
+}
+
 // Inventory lists every function declared in the module's non-test sources: key -> signature text.
 func Inventory(repo string, overlay map[string][]byte) (map[string]string, error) {
 	out := map[string]string{}
 	fset := token.NewFileSet()
+	visited := map[string]bool{}
+	visit := func(path string, src []byte) error { return inventoryFile(out, fset, repo, path, src) }
 	err := filepath.Walk(repo, func(path string, info os.FileInfo, err error) error {
 		if err != nil {
 			return nil
@@ -121,11 +164,70 @@ func Inventory(repo string, overlay map[string][]byte) (map[string]string, error
 				return nil
 			}
 		}
+		visited[path] = true
+		return visit(path, src)
+	})
+	for path, src := range overlay {
+		if !visited[path] && strings.HasPrefix(path, repo+string(filepath.Separator)) && strings.HasSuffix(path, ".go") && !strings.HasSuffix(path, "_test.go") {
+			if _, e := os.Stat(filepath.Dir(path)); e == nil {
+				visit(path, src)
+			}
+		}
+	}
+	return out, err
+}
+
+func inventoryFile(out map[string]string, fset *token.FileSet, repo, path string, src []byte) error {
+	{
 		f, e := parser.ParseFile(fset, path, src, parser.SkipObjectResolution)
 		if e != nil {
 			return nil // the main load reports syntax errors
 		}
 		rel, _ := filepath.Rel(repo, filepath.Dir(path))
+		// struct types and package-level variables/constants (for rename detection)
+		for _, d := range f.Decls {
+			gd, ok := d.(*ast.GenDecl)
+			if !ok {
+				continue
+			}
+			for _, sp := range gd.Specs {
+				switch x := sp.(type) {
+				case *ast.TypeSpec:
+					st, isS := x.Type.(*ast.StructType)
+					if !isS || st.Fields == nil {
+						continue
+					}
+					var fl []string
+					for _, fd := range st.Fields.List {
+						tt := abstractText(src[fset.Position(fd.Type.Pos()).Offset:fset.Position(fd.Type.End()).Offset])
+						if len(fd.Names) == 0 {
+							fl = append(fl, ":"+tt)
+						}
+						for _, n := range fd.Names {
+							fl = append(fl, n.Name+":"+tt)
+						}
+					}
+					out["type:"+rel+"|"+x.Name.Name] = strings.Join(fl, ";")
+				case *ast.ValueSpec:
+					if gd.Tok != token.VAR && gd.Tok != token.CONST {
+						continue
+					}
+					txt := ""
+					if x.Type != nil {
+						txt += abstractText(src[fset.Position(x.Type.Pos()).Offset:fset.Position(x.Type.End()).Offset])
+					}
+					txt += "="
+					for _, v := range x.Values {
+						txt += abstractText(src[fset.Position(v.Pos()).Offset:fset.Position(v.End()).Offset]) + ","
+					}
+					for i, n := range x.Names {
+						if n.Name != "_" {
+							out["var:"+rel+"|"+n.Name] = fmt.Sprintf("%s#%d", txt, i)
+						}
+					}
+				}
+			}
+		}
 		slicesName := ""
 		for _, is := range f.Imports {
 			if is.Path.Value == `"slices"` {
@@ -141,6 +243,7 @@ func Inventory(repo string, overlay map[string][]byte) (map[string]string, error
 					continue
 				}
 				val := sigText(src, fset, fd)
+				usesCol := ""
 				if slicesName != "" && fd.Body != nil {
 					var uses []string
 					ast.Inspect(fd.Body, func(n ast.Node) bool {
@@ -152,16 +255,18 @@ func Inventory(repo string, overlay map[string][]byte) (map[string]string, error
 						return true
 					})
 					sort.Strings(uses)
-					if len(uses) > 0 {
-						val += "\t" + strings.Join(uses, "\x1f")
-					}
+					usesCol = strings.Join(uses, "\x1f")
 				}
-				out[Key(rel, recvName(fd), fd.Name.Name)] = val
+				val += "\t" + usesCol
+				absSig, bodyHash := abstractText([]byte(sigText(src, fset, fd))), ""
+				if fd.Body != nil {
+					bodyHash = hashText(abstractText(src[fset.Position(fd.Body.Pos()).Offset:fset.Position(fd.Body.End()).Offset]))
+				}
+				out[Key(rel, recvName(fd), fd.Name.Name)] = val + "\t" + absSig + "\t" + bodyHash
 			}
 		}
 		return nil
-	})
-	return out, err
+	}
 }
 
 // modelled standard-library helpers: a call of one of these that the reference tree did not have is rewritten to
@@ -184,20 +289,34 @@ func modelKind(c *ast.CallExpr, slicesName string) string {
 func normText(t string) string { return strings.Join(strings.Fields(t), " ") }
 
 func splitVal(v string) (sig string, uses []string) {
-	if i := strings.Index(v, "\t"); i >= 0 {
-		sig = v[:i]
-		if v[i+1:] != "" {
-			uses = strings.Split(v[i+1:], "\x1f")
-		}
-		return
+	cols := strings.Split(v, "\t")
+	sig = cols[0]
+	if len(cols) > 1 && cols[1] != "" {
+		uses = strings.Split(cols[1], "\x1f")
 	}
-	return v, nil
+	return
+}
+
+// funcCols: signature, abstract signature, body hash of a function entry.
+func funcCols(v string) (sig, absSig, bodyHash string) {
+	cols := strings.Split(v, "\t")
+	sig = cols[0]
+	if len(cols) > 2 {
+		absSig = cols[2]
+	}
+	if len(cols) > 3 {
+		bodyHash = cols[3]
+	}
+	return
 }
 
 // newModelUses: per function key, the modelled calls (normalised text) that the baseline does not have.
 func newModelUses(inv, baseline map[string]string) map[string]map[string]int {
 	out := map[string]map[string]int{}
 	for k, v := range inv {
+		if strings.HasPrefix(k, "type:") || strings.HasPrefix(k, "var:") {
+			continue
+		}
 		_, cur := splitVal(v)
 		if len(cur) == 0 {
 			continue
@@ -240,7 +359,8 @@ func Run(repo string, env []string, base map[string][]byte, baseline map[string]
 	if len(baseline) == 0 {
 		return cur, rep
 	}
-	for round := 1; round <= 8; round++ {
+	renamedBack := false
+	for round := 1; round <= 9; round++ {
 		inv, err := Inventory(repo, cur)
 		if err != nil {
 			rep.Note = "inventory failed: " + err.Error()
@@ -248,30 +368,32 @@ func Run(repo string, env []string, base map[string][]byte, baseline map[string]
 		}
 		newKeys := map[string]bool{}
 		for k := range inv {
+			if strings.HasPrefix(k, "type:") || strings.HasPrefix(k, "var:") {
+				continue
+			}
 			if _, ok := baseline[k]; !ok {
 				newKeys[k] = true
 			}
 		}
-		// renames: a baseline function that is gone and exactly one new function of the same package, receiver
-		// and signature
-		if round == 1 {
-			for bk, bsig := range baseline {
-				if _, ok := inv[bk]; ok {
+		// renames (functions, struct fields, types, package-level variables): undone in the overlay, so that the
+		// rules see the names of the reference tree
+		if !renamedBack {
+			renamedBack = true
+			plan := detectRenames(inv, baseline)
+			if !plan.empty() {
+				next, done := renameBack(repo, env, cur, plan)
+				if done != nil && typeErrors(repo, env, next) == "" {
+					cur = next
+					rep.Renamed = done
 					continue
 				}
-				parts := strings.SplitN(bk, "|", 3)
-				var cands []string
-				for nk := range newKeys {
-					np := strings.SplitN(nk, "|", 3)
-					nsig, _ := splitVal(inv[nk])
-					bs, _ := splitVal(bsig)
-					if np[0] == parts[0] && np[1] == parts[1] && nsig == bs {
-						cands = append(cands, nk)
-					}
-				}
-				if len(cands) == 1 {
-					rep.Aliases[bk] = cands[0]
-				}
+			}
+			// what could not be renamed back (method ↔ function conversions, failed rewrite) stays an alias
+			for bk, nk := range plan.funcs {
+				rep.Aliases[bk] = nk
+			}
+			for bk, nk := range plan.conv {
+				rep.Aliases[bk] = nk
 			}
 		}
 		for _, nk := range rep.Aliases {
@@ -279,6 +401,14 @@ func Run(repo string, env []string, base map[string][]byte, baseline map[string]
 		}
 		for k := range rep.Kept {
 			delete(newKeys, k)
+		}
+		for k := range newKeys {
+			// a method ↔ function conversion keeps its body: not a helper to inline
+			for _, nk := range rep.Aliases {
+				if nk == k {
+					delete(newKeys, k)
+				}
+			}
 		}
 		models := newModelUses(inv, baseline)
 		if len(newKeys) == 0 && len(models) == 0 {
@@ -1804,4 +1934,314 @@ func betaEdits(fset *token.FileSet, csrc, hsrc []byte, info, hinfo *types.Info, 
 		out = append(out, edit{fset.Position(c.Pos()).Offset, fset.Position(c.End()).Offset, "(" + string(body) + ")"})
 	}
 	return out, true
+}
+
+// ---- renames ------------------------------------------------------------------------------------------------
+
+type renamePlan struct {
+	funcs  map[string]string // baseline func key -> current func key (same receiver kind: rename back)
+	conv   map[string]string // baseline func key -> current func key (method ↔ function: alias only)
+	types  map[string]string // "dir|BaseType" -> "dir|CurType"
+	fields map[string]string // "dir|CurType|curField" -> baseField
+	vars   map[string]string // "dir|baseVar" -> "dir|curVar"
+}
+
+func (p renamePlan) empty() bool {
+	return len(p.funcs)+len(p.conv)+len(p.types)+len(p.fields)+len(p.vars) == 0
+}
+
+func fieldList(v string) (names, typs []string) {
+	if v == "" {
+		return
+	}
+	for _, f := range strings.Split(v, ";") {
+		i := strings.Index(f, ":")
+		if i < 0 {
+			continue
+		}
+		names = append(names, f[:i])
+		typs = append(typs, f[i+1:])
+	}
+	return
+}
+
+func detectRenames(inv, baseline map[string]string) renamePlan {
+	plan := renamePlan{funcs: map[string]string{}, conv: map[string]string{}, types: map[string]string{}, fields: map[string]string{}, vars: map[string]string{}}
+	dirOf := func(k string) string { return strings.SplitN(strings.TrimPrefix(strings.TrimPrefix(k, "type:"), "var:"), "|", 2)[0] }
+	// types
+	taken := map[string]bool{}
+	for bk, bv := range baseline {
+		if !strings.HasPrefix(bk, "type:") {
+			continue
+		}
+		if _, ok := inv[bk]; ok {
+			continue
+		}
+		_, bt := fieldList(bv)
+		var cands []string
+		for nk, nv := range inv {
+			if !strings.HasPrefix(nk, "type:") || dirOf(nk) != dirOf(bk) {
+				continue
+			}
+			if _, inBase := baseline[nk]; inBase {
+				continue
+			}
+			_, nt := fieldList(nv)
+			if len(nt) > 0 && strings.Join(nt, ";") == strings.Join(bt, ";") {
+				cands = append(cands, nk)
+			}
+		}
+		if len(cands) == 1 && !taken[cands[0]] {
+			taken[cands[0]] = true
+			plan.types[strings.TrimPrefix(bk, "type:")] = strings.TrimPrefix(cands[0], "type:")
+		}
+	}
+	curTypeOf := func(baseTypeKey string) string { // "dir|T" -> current "dir|T'"
+		if c, ok := plan.types[baseTypeKey]; ok {
+			return c
+		}
+		return baseTypeKey
+	}
+	// fields of structs present on both sides
+	for bk, bv := range baseline {
+		if !strings.HasPrefix(bk, "type:") {
+			continue
+		}
+		ck := "type:" + curTypeOf(strings.TrimPrefix(bk, "type:"))
+		cv, ok := inv[ck]
+		if !ok {
+			continue
+		}
+		bn, bt := fieldList(bv)
+		cn, ct := fieldList(cv)
+		if len(bn) != len(cn) || strings.Join(bt, ";") != strings.Join(ct, ";") {
+			continue
+		}
+		for i := range bn {
+			if bn[i] != cn[i] && bn[i] != "" && cn[i] != "" {
+				plan.fields[strings.TrimPrefix(ck, "type:")+"|"+cn[i]] = bn[i]
+			}
+		}
+	}
+	// package-level variables and constants
+	takenV := map[string]bool{}
+	for bk, bv := range baseline {
+		if !strings.HasPrefix(bk, "var:") {
+			continue
+		}
+		if _, ok := inv[bk]; ok {
+			continue
+		}
+		var cands []string
+		for nk, nv := range inv {
+			if strings.HasPrefix(nk, "var:") && dirOf(nk) == dirOf(bk) && nv == bv {
+				if _, inBase := baseline[nk]; !inBase {
+					cands = append(cands, nk)
+				}
+			}
+		}
+		if len(cands) == 1 && !takenV[cands[0]] {
+			takenV[cands[0]] = true
+			plan.vars[strings.TrimPrefix(bk, "var:")] = strings.TrimPrefix(cands[0], "var:")
+		}
+	}
+	// functions: identical body up to renames first, identical signature second
+	takenF := map[string]string{}
+	for bk, bv := range baseline {
+		if strings.HasPrefix(bk, "type:") || strings.HasPrefix(bk, "var:") {
+			continue
+		}
+		if _, ok := inv[bk]; ok {
+			continue
+		}
+		bp := strings.SplitN(bk, "|", 3)
+		bsig, _, bhash := funcCols(bv)
+		var byBody, bySig []string
+		for nk, nv := range inv {
+			if strings.HasPrefix(nk, "type:") || strings.HasPrefix(nk, "var:") {
+				continue
+			}
+			if _, inBase := baseline[nk]; inBase {
+				continue
+			}
+			np := strings.SplitN(nk, "|", 3)
+			if len(np) != 3 || np[0] != bp[0] {
+				continue
+			}
+			nsig, _, nhash := funcCols(nv)
+			if bhash != "" && nhash == bhash {
+				byBody = append(byBody, nk)
+			}
+			recvSame := np[1] == bp[1]
+			if !recvSame && bp[1] != "" {
+				if c := curTypeOf(bp[0] + "|" + bp[1]); c == np[0]+"|"+np[1] {
+					recvSame = true
+				}
+			}
+			if recvSame && nsig == bsig {
+				bySig = append(bySig, nk)
+			}
+		}
+		pick := ""
+		switch {
+		case len(byBody) == 1:
+			pick = byBody[0]
+		case len(bySig) == 1:
+			pick = bySig[0]
+		case len(byBody) > 1:
+			// several bodies alike (trivial getters): the one that also keeps the signature
+			var both []string
+			for _, a := range byBody {
+				for _, b := range bySig {
+					if a == b {
+						both = append(both, a)
+					}
+				}
+			}
+			if len(both) == 1 {
+				pick = both[0]
+			}
+		}
+		if pick == "" {
+			continue
+		}
+		if prev, dup := takenF[pick]; dup {
+			delete(plan.funcs, prev)
+			delete(plan.conv, prev)
+			continue
+		}
+		takenF[pick] = bk
+		np := strings.SplitN(pick, "|", 3)
+		sameKind := (np[1] == "") == (bp[1] == "")
+		if sameKind {
+			plan.funcs[bk] = pick
+		} else {
+			plan.conv[bk] = pick
+		}
+	}
+	return plan
+}
+
+// renameBack rewrites the current names to the reference names (unexported declarations only; everything that
+// refers to the renamed object, found through the type checker). Returns nil when nothing was rewritten.
+func renameBack(repo string, env []string, overlay map[string][]byte, plan renamePlan) (map[string][]byte, []string) {
+	pkgs, err := loadTyped(repo, env, overlay)
+	if err != nil || len(pkgs) == 0 {
+		return nil, nil
+	}
+	fset := pkgs[0].Fset
+	out := map[string][]byte{}
+	for k, v := range overlay {
+		out[k] = v
+	}
+	var done []string
+	for _, pk := range pkgs {
+		if len(pk.Errors) > 0 || pk.TypesInfo == nil || len(pk.CompiledGoFiles) == 0 {
+			continue
+		}
+		dir := filepath.Dir(pk.CompiledGoFiles[0])
+		if !strings.HasPrefix(dir, repo) {
+			continue
+		}
+		rel, _ := filepath.Rel(repo, dir)
+		target := map[types.Object]string{} // object -> reference name
+		note := func(o types.Object, to string) {
+			if o == nil || o.Name() == to || o.Exported() {
+				return
+			}
+			target[o] = to
+		}
+		for _, f := range pk.Syntax {
+			for _, d := range f.Decls {
+				switch x := d.(type) {
+				case *ast.FuncDecl:
+					k := Key(rel, recvName(x), x.Name.Name)
+					for bk, nk := range plan.funcs {
+						if nk == k {
+							note(pk.TypesInfo.Defs[x.Name], strings.SplitN(bk, "|", 3)[2])
+						}
+					}
+				case *ast.GenDecl:
+					for _, sp := range x.Specs {
+						switch y := sp.(type) {
+						case *ast.TypeSpec:
+							for bk, nk := range plan.types {
+								if nk == rel+"|"+y.Name.Name {
+									note(pk.TypesInfo.Defs[y.Name], strings.SplitN(bk, "|", 2)[1])
+								}
+							}
+							if st, ok := y.Type.(*ast.StructType); ok && st.Fields != nil {
+								for _, fd := range st.Fields.List {
+									for _, n := range fd.Names {
+										if to, ok := plan.fields[rel+"|"+y.Name.Name+"|"+n.Name]; ok {
+											note(pk.TypesInfo.Defs[n], to)
+										}
+									}
+								}
+							}
+						case *ast.ValueSpec:
+							for _, n := range y.Names {
+								for bk, nk := range plan.vars {
+									if nk == rel+"|"+n.Name {
+										note(pk.TypesInfo.Defs[n], strings.SplitN(bk, "|", 2)[1])
+									}
+								}
+							}
+						}
+					}
+				}
+			}
+		}
+		if len(target) == 0 {
+			continue
+		}
+		// the reference name must be free where the object lives
+		for o, to := range target {
+			if o.Parent() == pk.Types.Scope() && pk.Types.Scope().Lookup(to) != nil {
+				delete(target, o)
+			}
+		}
+		edits := map[string][]edit{}
+		for _, f := range pk.Syntax {
+			ast.Inspect(f, func(n ast.Node) bool {
+				id, ok := n.(*ast.Ident)
+				if !ok {
+					return true
+				}
+				o := pk.TypesInfo.Defs[id]
+				if o == nil {
+					o = pk.TypesInfo.Uses[id]
+				}
+				if to, ok := target[o]; ok {
+					ps := fset.Position(id.Pos())
+					pe := fset.Position(id.End())
+					edits[fset.File(id.Pos()).Name()] = append(edits[fset.File(id.Pos()).Name()], edit{ps.Offset, pe.Offset, to})
+				}
+				return true
+			})
+		}
+		for name, es := range edits {
+			src, ok := out[name]
+			if !ok {
+				b, e := os.ReadFile(name)
+				if e != nil {
+					return nil, nil
+				}
+				src = b
+			}
+			res, e := applyEdits(src, es)
+			if e != nil {
+				return nil, nil
+			}
+			out[name] = res
+		}
+		for o, to := range target {
+			done = append(done, rel+"."+o.Name()+" -> "+to)
+		}
+	}
+	if len(done) == 0 {
+		return nil, nil
+	}
+	sort.Strings(done)
+	return out, done
 }
